@@ -189,6 +189,7 @@ func isSame(a *Value, b *Value) bool {
 }
 
 func (v *Value) prettyStringInteral(rootValues []*Value, quote bool, checkCircularReference bool) string {
+	verifCharge(1)
 	if checkCircularReference {
 		for _, rootValue := range rootValues {
 			if isSame(rootValue, v) {
@@ -268,6 +269,7 @@ func (v *Value) GetMember(member Value) (*Cell, error) {
 				return nil, fmt.Errorf("index too large to auto-fill array")
 			}
 
+			verifCharge(index - len(arr) + 1)
 			// fill the array with empty cells up to the index
 			var lastCell *Cell
 			for i := len(arr); i <= index; i++ {
@@ -421,6 +423,7 @@ func (v *Value) ToGoValue() (interface{}, error) {
 }
 
 func (v *Value) toGoValueInterval(rootValues []*Value, checkCircularReference bool) (interface{}, error) {
+	verifCharge(1)
 	if checkCircularReference {
 		for _, rootValue := range rootValues {
 			if isSame(rootValue, v) {
